@@ -1231,7 +1231,7 @@ fn run_c03(case: &Case, seed: u64, rep: &mut Rep) {
                 let single = tracker.clean() && tokenize(b).is_some_and(|t| t.len() == 1 && !matches!(t[0], Tok::Print(_)));
                 let scope = ctx.screen().is_some_and(|s| size_in_cost_scope(s.size()));
                 let pre = if single && scope { ctx.screen().cloned() } else { None };
-                let t0 = std::time::Instant::now();
+                let t0 = CpuClock::now();
                 let r = ctx.apply(&op);
                 let mut dt = t0.elapsed();
                 tracker.feed(b);
@@ -1247,7 +1247,7 @@ fn run_c03(case: &Case, seed: u64, rep: &mut Rep) {
                             let (r0, c0) = pre.size();
                             let mut p2 = fresh(r0, c0);
                             *p2.screen_mut() = pre.clone();
-                            let t1 = std::time::Instant::now();
+                            let t1 = CpuClock::now();
                             let _ = guard(|| p2.process(b));
                             dt = dt.min(t1.elapsed());
                         }
@@ -1325,7 +1325,7 @@ fn cost_sweep(rep: &mut Rep) {
                     while runs < 3 {
                         let mut p = vt100::Parser::new(rows, cols, 50);
                         *p.screen_mut() = tmpl_screen.clone();
-                        let t0 = std::time::Instant::now();
+                        let t0 = CpuClock::now();
                         let r = guard(|| p.process(&seq));
                         let dt = t0.elapsed().as_micros();
                         if r.is_err() {
@@ -4016,6 +4016,28 @@ fn builtin_cases(prop: &str, seed: u64) -> Vec<Case> {
 // main
 // ---------------------------------------------------------------------------
 
+/// CPU time of the calling thread (nanoseconds on CPU, from /proc/thread-self/schedstat),
+/// so that the cost clause is not disturbed by other processes on a busy machine.
+struct CpuClock(u128);
+impl CpuClock {
+    fn read() -> u128 {
+        std::fs::read_to_string("/proc/thread-self/schedstat")
+            .ok()
+            .and_then(|s| s.split_whitespace().next().and_then(|x| x.parse::<u128>().ok()))
+            .unwrap_or_else(|| {
+                // fallback: wall clock
+                std::time::SystemTime::now().duration_since(std::time::UNIX_EPOCH).map_or(0, |d| d.as_nanos())
+            })
+    }
+    fn now() -> Self {
+        CpuClock(Self::read())
+    }
+    fn elapsed(&self) -> std::time::Duration {
+        let n = Self::read().saturating_sub(self.0);
+        std::time::Duration::from_nanos(u64::try_from(n).unwrap_or(u64::MAX))
+    }
+}
+
 fn main() {
     let a: Vec<String> = std::env::args().collect();
     if a.len() < 3 {
@@ -4083,10 +4105,14 @@ fn main() {
     if timing {
         eprintln!("oracle: cases done after {:?}", t_start.elapsed());
     }
-    if prop == "C09" {
+    if prop == "C09" && std::env::var("VERIF_NO_SWEEP").is_err() {
         pen_sweep(seed, &mut rep);
     }
-    if prop == "C03" {
+    // the file-independent sweeps run in one oracle process per check only (VERIF_NO_SWEEP is set
+    // by the caller for all but the first script file), and the cost sweep runs alone, after the
+    // other shards, so that it is not disturbed by them
+    let no_sweep = std::env::var("VERIF_NO_SWEEP").is_ok();
+    if prop == "C03" && !no_sweep {
         cost_sweep(&mut rep);
         if timing {
             eprintln!("oracle: cost sweep done after {:?}", t_start.elapsed());
